@@ -503,7 +503,9 @@ def interop(ctx, D, scr, kts, quick, rnd, kf_sig):
     import asyncssh
     PW = 'interop-pw'
     cm = b'interop comment'
-    stats = {'pyca_read': 0, 'pyca_unsupported': 0, 'pyca_written': 0,
+    stats = {'openssl_read': 0, 'openssl_unsupported': 0,
+             'openssl_written': 0, 'sweep_cases': 0,
+             'pyca_read': 0, 'pyca_unsupported': 0, 'pyca_written': 0,
              'keygen_read': 0, 'keygen_unsupported': 0, 'keygen_written': 0}
     encs = {
         'pkcs1-pem': [('aes256-cbc', 'sha256', 2), ('aes128-cbc', 'sha1', 2),
@@ -516,6 +518,17 @@ def interop(ctx, D, scr, kts, quick, rnd, kf_sig):
         'pkcs8-der': [('aes256-cbc', 'sha256', 2), ('des3-cbc', 'sha1', 1),
                       ('aes128-cbc', 'sha512', 2)],
     }
+    if not quick:
+        p2 = ['aes128-cbc', 'aes192-cbc', 'aes256-cbc', 'blowfish-cbc',
+              'cast128-cbc', 'des-cbc', 'des3-cbc']
+        encs['pkcs8-pem'] = [(c, h, 2) for c in p2 for h in
+                             ('sha1', 'sha224', 'sha256', 'sha384',
+                              'sha512')] + \
+            [(c, h, 1) for c, h in D.OSSL_V1]
+        encs['pkcs8-der'] = encs['pkcs8-pem'][::3]
+        encs['pkcs1-pem'] = [(c, 'sha256', 2) for c in
+                             ('aes128-cbc', 'aes192-cbc', 'aes256-cbc',
+                              'des-cbc', 'des3-cbc')]
     use_kts = list(kts) + ([] if quick else ['rsa3072'])
     for kt in use_kts:
         k = D.copy_with_comment(D.key(kt), cm)
@@ -567,6 +580,33 @@ def interop(ctx, D, scr, kts, quick, rnd, kf_sig):
                             f'PyCA reads a different private key than '
                             f'asyncssh wrote: {case}',
                             {'kind': 'interop', 'case': case})
+                # --- openssl reads what asyncssh wrote
+                if D.OPENSSL and fmt != 'openssh':
+                    ctx.count(('interop-openssl-read', kt, fmt, enc))
+                    der = D.openssl_public_der(scr, data, fmt,
+                                               PW if enc else None)
+                    if der is not None:
+                        stats['openssl_read'] += 1
+                        if der != ref_pub:
+                            ctx.violation(
+                                kf_sig('interop', reader='openssl',
+                                       step='equal', **case),
+                                f'openssl reads a different key than '
+                                f'asyncssh wrote: {case}',
+                                {'kind': 'interop', 'case': case})
+                    elif D.openssl_must_read(fmt, enc) and \
+                            D.openssl_public_der(
+                                scr, D.pyca_write_private(pk, 'pkcs8-pem',
+                                                          None),
+                                'pkcs8-pem', None) is not None:
+                        ctx.violation(
+                            kf_sig('interop', reader='openssl', **case),
+                            f'openssl cannot read a private key written by '
+                            f'asyncssh: {case}',
+                            {'kind': 'interop', 'case': case,
+                             'data_hex': data.hex()})
+                    else:
+                        stats['openssl_unsupported'] += 1
                 # --- ssh-keygen reads what asyncssh wrote
                 if D.SSH_KEYGEN and D.keygen_supports(kt) and \
                         fmt in ('openssh', 'pkcs1-pem', 'pkcs8-pem'):
@@ -830,8 +870,117 @@ def interop(ctx, D, scr, kts, quick, rnd, kf_sig):
                         ctx.divergence(f'public half of encrypted OpenSSH key '
                                        f'not readable: {exc}')
 
+    passphrase_sweep(ctx, D, scr, kts, quick, kf_sig, stats)
     certificates(ctx, D, scr, kts, quick, kf_sig, stats)
     ctx.notes.append(f'independent readers/writers: {stats}')
+
+
+def passphrase_sweep(ctx, D, scr, kts, quick, kf_sig, stats):
+    """Every key-derivation family x passphrase lengths around hash / cipher
+    block boundaries (and non-ASCII passphrases): asyncssh's own round trip,
+    PyCA / openssl / ssh-keygen reading what asyncssh wrote, asyncssh reading
+    what openssl wrote.  A reader that handles a family for some passphrase
+    must handle it for every passphrase."""
+    import asyncssh
+    kt_a = 'ec256' if 'ec256' in kts else kts[0]
+    kt_b = 'ed25519' if 'ed25519' in kts else kts[0]
+    sub_lengths = set(D.PW_LENGTHS_QUICK_SUBPROC if quick else D.PW_LENGTHS)
+    for fi, (fam, fmt, enc) in enumerate(D.KDF_FAMILIES):
+        kt = kt_a if fmt.startswith('pkcs1') or fi % 2 == 0 else kt_b
+        k = D.key(kt)
+        ref_priv = D.pyca_private_der(k.pyca_key)
+        ref_pub = D.pyca_public_der(k.pyca_key.public_key())
+        pws = [(n, D.passphrase_of(n, fi)) for n in D.PW_LENGTHS] + \
+            [('na%d' % i, p) for i, p in enumerate(D.PW_NONASCII)]
+        seen = {'pyca': {}, 'openssl': {}, 'ssh-keygen': {}}
+        for n, pw in pws:
+            case = dict(family=fam, fmt=fmt, enc=list(enc), kt=kt,
+                        passphrase_len=n)
+            rp = {'kind': 'interop', 'case': case, 'passphrase': pw}
+            stats['sweep_cases'] += 1
+            ctx.count(('pw-sweep', fam, n))
+            try:
+                data = k.export_private_key(fmt, pw, *enc)
+                k2 = D.imp_priv(data, pw)
+                ok = D.same_private(k2, k)
+            except Exception as exc:        # pylint: disable=broad-except
+                ok = False
+                case['exc'] = repr(exc)
+            if not ok:
+                ctx.violation(kf_sig('pw-sweep', step='roundtrip', **case),
+                              f'export/import round trip fails: {case}', rp)
+                continue
+            try:
+                D.imp_priv(data, pw[:-1] + ('X' if pw[-1] != 'X' else 'Y'))
+                ctx.violation(kf_sig('pw-sweep', step='passphrase', **case),
+                              f'key imported with a passphrase differing in '
+                              f'its last character: {case}', rp)
+            except ValueError:
+                pass
+            # PyCA (in process: every length)
+            try:
+                loaded = D.pyca_load_private(data, fmt, pw.encode('utf-8'))
+                seen['pyca'][n] = 'ok' if D.pyca_private_der(loaded) == \
+                    ref_priv else 'different key'
+            except Exception as exc:        # pylint: disable=broad-except
+                seen['pyca'][n] = f'fails ({type(exc).__name__})'
+            sub = n in sub_lengths or (isinstance(n, str) and not quick) \
+                or n == 'na0'
+            if D.OPENSSL and fmt != 'openssh' and sub:
+                der = D.openssl_public_der(scr, data, fmt, pw)
+                seen['openssl'][n] = 'fails' if der is None else \
+                    ('ok' if der == ref_pub else 'different key')
+                # asyncssh reads what openssl wrote
+                own = D.openssl_write_private(scr, k, fmt, enc, pw)
+                if own is not None:
+                    stats['openssl_written'] += 1
+                    try:
+                        k3 = D.imp_priv(own, pw)
+                        ok = D.same_private(k3, k)
+                        why = 'different key'
+                    except Exception as exc:    # pylint: disable=broad-except
+                        ok = False
+                        why = f'{type(exc).__name__}: {exc}'
+                    if not ok:
+                        ctx.violation(
+                            kf_sig('pw-sweep', writer='openssl', **case),
+                            f'asyncssh cannot import the key openssl wrote '
+                            f'({why}): {case}',
+                            dict(rp, data_hex=own.hex()))
+            if D.SSH_KEYGEN and fmt.endswith('-pem') and sub and \
+                    D.keygen_must_read(fmt, enc):
+                f = scr.write('sweep_key', data)
+                rc, out, err = D.keygen(['-y', '-P', pw, '-f', f])
+                if rc == 0:
+                    seen['ssh-keygen'][n] = 'ok' if \
+                        D.blob_of_line(out)[0] == k.public_data \
+                        else 'different key'
+                else:
+                    seen['ssh-keygen'][n] = 'fails'
+        for reader, res in seen.items():
+            if not res:
+                continue
+            good = [n for n, r in res.items() if r == 'ok']
+            bad = {n: r for n, r in res.items() if r != 'ok'}
+            stats[{'pyca': 'pyca_read', 'openssl': 'openssl_read',
+                   'ssh-keygen': 'keygen_read'}[reader]] += len(good)
+            if not good:
+                # the reader does not support this family at all
+                stats[{'pyca': 'pyca_unsupported',
+                       'openssl': 'openssl_unsupported',
+                       'ssh-keygen': 'keygen_unsupported'}[reader]] += 1
+                continue
+            for n, r in bad.items():
+                case = dict(family=fam, fmt=fmt, enc=list(enc), kt=kt,
+                            passphrase_len=n, reader=reader)
+                ctx.violation(
+                    kf_sig('pw-sweep', step='read', **case),
+                    f'{reader} reads {fam} keys written by asyncssh for '
+                    f'passphrase lengths {good[:6]}... but {r} for length '
+                    f'{n}: {case}', {'kind': 'interop', 'case': case})
+    ctx.sample({'part': 'passphrase sweep',
+                'families': [f for f, _, _ in D.KDF_FAMILIES],
+                'lengths': D.PW_LENGTHS, 'non_ascii': len(D.PW_NONASCII)})
 
 
 def certificates(ctx, D, scr, kts, quick, kf_sig, stats):
